@@ -113,7 +113,7 @@ void vf_rcu_cas(struct vf_atomic_ptr_ *a, void *expected, void *desired, _Bool o
 void *vf_aptr_load(struct vf_atomic_ptr_ *a, int mo)
 {
   vf_rcu_env(a);
-  g_atomic_ops = g_atomic_ops + 1;
+  if (g_atomic_ops < VF_BIG) g_atomic_ops = g_atomic_ops + 1;
   void *r = a->v;
   vf_rcu_loaded(a, r);
   return r;
@@ -121,7 +121,7 @@ void *vf_aptr_load(struct vf_atomic_ptr_ *a, int mo)
 void *vf_aptr_store(struct vf_atomic_ptr_ *a, void *x, int mo)
 {
   vf_rcu_env(a);
-  g_atomic_ops = g_atomic_ops + 1;
+  if (g_atomic_ops < VF_BIG) g_atomic_ops = g_atomic_ops + 1;
   void *o = a->v;
   vf_rcu_store(a, o, x);
   a->v = x;
@@ -130,7 +130,7 @@ void *vf_aptr_store(struct vf_atomic_ptr_ *a, void *x, int mo)
 _Bool vf_aptr_cas_weak(struct vf_atomic_ptr_ *a, void **expected, void *desired, int mo)
 {
   vf_rcu_env(a);
-  g_atomic_ops = g_atomic_ops + 1;
+  if (g_atomic_ops < VF_BIG) g_atomic_ops = g_atomic_ops + 1;
   if (a->v == *expected && vf_nondet_bool()) {       /* weak: may also fail spuriously */
     vf_rcu_cas(a, *expected, desired, 1);
     a->v = desired;
@@ -151,13 +151,13 @@ void vf_rcu_env(struct vf_atomic_ptr_ *a)
 }
 void vf_rcu_loaded(struct vf_atomic_ptr_ *a, void *v)
 {
-  if (g_owner_clears > 0) g_after_owner_clear = g_after_owner_clear + 1;
-  if (vf_LST != 0 && (a == (struct vf_atomic_ptr_ *)&vf_LST->m_head || a == (struct vf_atomic_ptr_ *)&vf_LST->m_tail)) g_list_reads = g_list_reads + 1;
-  if (vf_LST != 0 && a == (struct vf_atomic_ptr_ *)&vf_LST->m_zombie_head) g_log_reads = g_log_reads + 1;
+  if (g_owner_clears > 0) if (g_after_owner_clear < VF_BIG) g_after_owner_clear = g_after_owner_clear + 1;
+  if (vf_LST != 0 && (a == (struct vf_atomic_ptr_ *)&vf_LST->m_head || a == (struct vf_atomic_ptr_ *)&vf_LST->m_tail)) if (g_list_reads < VF_BIG) g_list_reads = g_list_reads + 1;
+  if (vf_LST != 0 && a == (struct vf_atomic_ptr_ *)&vf_LST->m_zombie_head) if (g_log_reads < VF_BIG) g_log_reads = g_log_reads + 1;
 }
 void vf_rcu_store(struct vf_atomic_ptr_ *a, void *o, void *n)
 {
-  if (g_owner_clears > 0) g_after_owner_clear = g_after_owner_clear + 1;
+  if (g_owner_clears > 0) if (g_after_owner_clear < VF_BIG) g_after_owner_clear = g_after_owner_clear + 1;
   /* ---- publication of a new node (push / emplace) ---- */
   if (g_new != 0) {
     if (a == (struct vf_atomic_ptr_ *)&g_new->next)
@@ -277,3 +277,85 @@ FN = {
     r'rcu_list::emplace_front': push_entry(True, 'vs'),
     r'rcu_list::emplace_back': push_entry(False, 'vs'),
 }
+
+# ---------------------------------------------------------------------------- erase
+ERASE_SETUP = ('vf_LST = self; iter->m_current = &vf_mid; g_victim = &vf_mid; vf_mid.data.life = VF_LIVE; vf_hn.data.life = VF_LIVE; vf_tn.data.life = VF_LIVE; '
+               'vf_mid.back.v = vf_nondet_bool() ? (void *)&vf_hn : (void *)0; vf_mid.next.v = vf_nondet_bool() ? (void *)&vf_tn : (void *)0; '
+               'vf_hn.next.v = &vf_mid; vf_tn.back.v = &vf_mid; '
+               'self->m_zombie_head.v = vf_nondet_bool() ? (void *)&vf_env_rec : (void *)0; self->m_write_mutex.guards = 0;')
+ERASE_FRESH = FRESH.replace('g_victim == 0 && ', '')
+FN[r'rcu_list::erase'] = dict(
+    props='C05 C12', setup=ERASE_SETUP,
+    requires=['vf_LST == self && iter->m_current == &vf_mid && g_victim == &vf_mid && ' + ERASE_FRESH + ' && !self->m_write_mutex.excl_me && self->m_write_mutex.shared_me == 0 && '
+              'self->m_write_mutex.guards == 0 && vf_held == 0 && !vf_exc && (vf_mid.back.v == 0 || vf_mid.back.v == (void *)&vf_hn) && (vf_mid.next.v == 0 || vf_mid.next.v == (void *)&vf_tn) && ' + R3],
+    ensures=[('C12', ONE_CS, 'erase is one critical section of m_write_mutex, released on every exit'),
+             ('C12', '(!vf_exc && !__CPROVER_old(vf_mid.deleted)) ==> (vf_mid.deleted && g_chain_stores == 1 && g_unlinked && '
+                     '(__CPROVER_old(vf_mid.back.v) != 0 ? vf_hn.next.v == __CPROVER_old(vf_mid.next.v) : self->m_head.v == __CPROVER_old(vf_mid.next.v)) && '
+                     '(__CPROVER_old(vf_mid.next.v) != 0 ? vf_tn.back.v == __CPROVER_old(vf_mid.back.v) : self->m_tail.v == __CPROVER_old(vf_mid.back.v)))',
+              'first erase: exactly one store on the forward chain redirects the predecessor (or m_head) to the successor; successor/m_tail point back'),
+             ('C12', 'vf_mid.next.v == __CPROVER_old(vf_mid.next.v) && vf_mid.back.v == __CPROVER_old(vf_mid.back.v)', "the erased node's own links are left intact (a traversal standing on it continues)"),
+             ('C05', '(!vf_exc && !__CPROVER_old(vf_mid.deleted)) ==> (g_rec_allocs == 1 && g_rec_pushes == 1 && g_rec_published)',
+              'the node is logged exactly once, after the unlink (order and content of the record: model assertions at the successful CAS)'),
+             ('C05 C12', '__CPROVER_old(vf_mid.deleted) ==> (g_chain_stores == 0 && g_rec_allocs == 0 && g_rec_pushes == 0 && self->m_head.v == __CPROVER_old(self->m_head.v) && self->m_tail.v == __CPROVER_old(self->m_tail.v))',
+              'a second erase of the same node is a no-op'),
+             ('C12', '!vf_exc ==> vf_ret->m_current == __CPROVER_old(vf_mid.next.v)', 'returns an iterator to the successor'),
+             ('C05', 'g_node_frees == 0 && g_node_destroys == 0 && g_rec_frees == 0', 'erase itself never destroys or frees anything')],
+    assigns=['*vf_ret, *self, vf_hn, vf_tn, vf_mid, ' + RG],
+    loops={0: dict(
+        invariant=[('C05', 'newZombie == g_newrec && g_newrec != 0 && g_newrec->zombie_node == &vf_mid && g_newrec->owner.v == 0 && !g_rec_published && g_rec_pushes == 0 && g_unlinked && g_chain_stores == 1 && '
+                           'self->m_write_mutex.excl_me && vf_held == 1 && !vf_exc && g_victim == &vf_mid && vf_LST == self && g_new == 0 && g_own == 0 && g_rec_allocs == 1 && '
+                           'g_cas_fail >= 0 && g_cas_fail <= VF_BIG && g_atomic_ops >= 0 && g_atomic_ops <= VF_BIG && g_log_reads >= 0 && g_log_reads <= VF_BIG && g_owner_clears == 0 && g_list_reads >= 0 && g_list_reads <= VF_BIG',
+                    'retry loop of the log push: the record is complete and unpublished, the node already unlinked')],
+        assigns='oldZombie, g_newrec->next.v, self->m_zombie_head.v, g_cas_fail, g_atomic_ops, g_rec_published, g_rec_pushes, g_log_reads')})
+
+# ---------------------------------------------------------------------------- registration
+RL_SETUP = 'vf_LST = list; list->m_zombie_head.v = vf_nondet_bool() ? (void *)&vf_env_rec : (void *)0;'
+RL = dict(
+    props='C05 C14', setup=RL_SETUP,
+    requires=['vf_LST == list && ' + FRESH + ' && !vf_exc && vf_held == 0 && ' + R3],
+    ensures=[('C05', '!vf_exc ==> (self->m_list == list && self->m_zombie == g_newrec && g_newrec != 0 && g_newrec->owner.v == (void *)self && g_newrec->zombie_node == 0 && g_rec_allocs == 1)',
+              'a record owned by this guard is allocated and constructed'),
+             ('C05', '!vf_exc ==> (g_rec_pushes == 1 && g_rec_published)', 'and published exactly once, with next = the head value the successful CAS validated (model assertion)'),
+             ('C05', 'g_list_reads == 0', 'nothing of the list is read before the registration is complete'),
+             ('C14', NOBLOCK, 'registration takes no lock, waits on nothing: the only loop is the CAS retry'),
+             ('C05', 'vf_exc ==> g_rec_pushes == 0', 'a failed allocation registers nothing'),
+             ('', 'g_node_frees == 0 && g_rec_frees == 0 && g_node_destroys == 0', 'nothing freed')],
+    assigns=['*self, list->m_zombie_head.v, ' + RG],
+    loops={0: dict(
+        invariant=[('C05 C14', 'self->m_zombie == g_newrec && g_newrec != 0 && g_newrec->owner.v == (void *)self && g_newrec->zombie_node == 0 && !g_rec_published && g_rec_pushes == 0 && !vf_exc && '
+                               'g_list_reads == 0 && g_victim == 0 && g_new == 0 && g_own == 0 && vf_LST == list && g_rec_allocs == 1 && self->m_list == list && '
+                               'g_cas_fail >= 0 && g_cas_fail <= VF_BIG && g_atomic_ops >= 0 && g_atomic_ops <= VF_BIG && g_log_reads >= 0 && g_log_reads <= VF_BIG && g_owner_clears == 0',
+                    'CAS retry loop: the record is complete and not yet published')],
+        assigns='oldNext, g_newrec->next.v, list->m_zombie_head.v, g_cas_fail, g_atomic_ops, g_rec_published, g_rec_pushes, g_log_reads')})
+FN[r'rcu_list::rcu_guard::rcu_read_lock'] = RL
+RL2 = dict(RL)
+RL2.pop('loops')
+RL2['inline_callees'] = True   # thin wrapper: verified with rcu_read_lock (and its loop contract) inlined
+FN[r'rcu_list::rcu_guard::rcu_write_lock'] = RL2
+
+# ---------------------------------------------------------------------------- read paths (C14: wait-free)
+HEAD_SETUP = 'vf_LST = self; self->m_head.v = vf_nondet_bool() ? (void *)&vf_hn : (void *)0;'
+FN[r'rcu_list::begin'] = dict(
+    props='C12 C14', setup=HEAD_SETUP, loop_free=True,
+    requires=['vf_LST == self && ' + FRESH + ' && !vf_exc && ' + R3],
+    ensures=[('C12 C14', 'vf_ret->m_current == self->m_head.v && g_atomic_ops == 1 && g_list_reads == 1 && !vf_exc', 'one atomic load of the head'),
+             ('C14', NOBLOCK, 'no lock, no wait')],
+    assigns='*vf_ret, ' + RG)
+IT_SETUP = 'vf_LST = 0; self->m_current = &vf_mid; vf_mid.next.v = vf_nondet_bool() ? (void *)&vf_tn : (void *)0; vf_mid.data.life = VF_LIVE;'
+FN[r'rcu_list::(const_)?iterator::op_inc'] = dict(
+    props='C12 C14', setup=IT_SETUP, loop_free=True, optional=True,
+    where=lambda fm: not fm['cname'].endswith('__int'),
+    requires=['self->m_current == &vf_mid && ' + FRESH + ' && !vf_exc && ' + R3],
+    ensures=[('C12 C14', 'self->m_current == vf_mid.next.v && g_atomic_ops == 1 && !vf_exc && __CPROVER_return_value == self', 'advances with one atomic load of next'),
+             ('C14', NOBLOCK, 'no lock, no wait')],
+    assigns='*self, ' + RG)
+FN[r'rcu_list::(const_)?iterator::(op_deref|op_arrow)'] = dict(
+    props='C12 C14', setup=IT_SETUP, loop_free=True,
+    requires=['self->m_current == &vf_mid && !vf_exc'],
+    ensures=[('C12 C14', '__CPROVER_return_value == &vf_mid.data && !vf_exc', 'yields the element of the current node, touches nothing else')],
+    assigns='')
+FN[r'rcu_list::(const_)?iterator::op_ne'] = dict(
+    props='C12 C14', loop_free=True,
+    requires=['!vf_exc'],
+    ensures=[('C12 C14', '__CPROVER_return_value == (self->m_current != 0) && !vf_exc', 'end is the null node')],
+    assigns='')
